@@ -3,8 +3,8 @@
    function of two oracles:
 
      code : worker -> Z      the exit code the worker will have once terminated
-                             (0 normal; raise => 1; os._exit(k) => k; killed by
-                             signal s => -s)
+                             (0 normal; raise => 1; os._exit(k) => k mod 256; killed by
+                             signal s => -s: see exit_code_of)
      dur  : worker -> nat    the number of polls (calls of winnow) after its start
                              at which the worker is still found running.
 
@@ -31,14 +31,21 @@ From Coq Require Import ZArith List Bool Lia.
 From CTM Require Import Base.Sx.
 Import ListNotations.
 
-(* ---- failure modes and their exit codes (multiprocessing.Process.exitcode) *)
+(* ---- failure modes and their exit codes, as multiprocessing.Process.exitcode reports
+   them on POSIX (popen_fork.Popen.poll: os.waitpid, then os.waitstatus_to_exitcode):
+     the worker returns                    -> 0
+     the target raises                     -> 1      (BaseProcess._bootstrap prints the traceback)
+     the worker calls os._exit(k)          -> k mod 256: the kernel keeps the low 8 bits of the
+                                              status, so os._exit(256) is reported as 0 and
+                                              os._exit(-1) as 255
+     the worker is killed by signal s      -> -s     (1 <= s <= 64)                              *)
 Inductive fail_mode := NoFail | Raises | Exits (k : Z) | Killed (sig : Z).
 
 Definition exit_code_of (m : fail_mode) : Z :=
   match m with
   | NoFail => 0
   | Raises => 1
-  | Exits k => k
+  | Exits k => k mod 256
   | Killed s => (- s)
   end%Z.
 
@@ -189,9 +196,13 @@ Definition choose_parent (behemoths smaller : list nat) (s : sel_state) : option
   | None => first_unstarted smaller (ss_started s)
   end.
 
-(* inner loop: `while len(process_dict) >= n or not have_chosen_parent:` winnow;
-   completed |= popped keys; a pop sets have_chosen_parent *)
-Fixpoint sel_wait (fuel : nat) (W : world) (n : nat) (have : bool) (s : sel_state)
+(* the two poll loops of select_all_markers.
+   track = true:  the inner loop `while len(process_dict) >= n or not have_chosen_parent:`
+                  winnow; completed_parents |= popped keys; a pop sets have_chosen_parent
+   track = false: the final `while len(process_dict) > 0: process_dict = winnow_process_dict(...)`
+                  (called with n = 1, have = true), which does NOT touch completed_parents: the
+                  parents popped there are never recorded as completed *)
+Fixpoint sel_wait (track : bool) (fuel : nat) (W : world) (n : nat) (have : bool) (s : sel_state)
   : pres + sel_state :=
   if ((length (ss_running s) <? n)%nat && have)%bool then inr s else
   match fuel with
@@ -201,17 +212,21 @@ Fixpoint sel_wait (fuel : nat) (W : world) (n : nat) (have : bool) (s : sel_stat
       | WRaise w c => inl (PRaised w c)
       | WOk r' =>
           let gone := filter (fun p => negb (mem p (map fst r'))) (map fst (ss_running s)) in
-          sel_wait f W n (have || negb (length r' =? length (ss_running s))%nat)
-                   {| ss_started := ss_started s; ss_completed := ss_completed s ++ gone;
+          sel_wait track f W n (have || negb (length r' =? length (ss_running s))%nat)
+                   {| ss_started := ss_started s;
+                      ss_completed := if track then ss_completed s ++ gone else ss_completed s;
                       ss_running := r'; ss_clock := S (ss_clock s) |}
       end
   end.
 
-Fixpoint sel_loop (outer fuel : nat) (W : world) (n n_parents : nat) (behemoths smaller leafless : list nat)
+(* `outer` bounds the iterations of the outer loop, `fuel` the polls of each inner loop, `dfuel`
+   the polls of the final drain (dfuel = 0 hands back the state at the exit of the outer loop
+   untouched: used to state the pool invariant at every state of the outer loop) *)
+Fixpoint sel_loop (outer fuel dfuel : nat) (W : world) (n n_parents : nat) (behemoths smaller leafless : list nat)
          (s : sel_state) : pres * sel_state :=
   if (n_parents <=? length (ss_started s))%nat then
-    (* final drain *)
-    match sel_wait fuel W 1 true s with
+    (* final drain: completed_parents is not updated *)
+    match sel_wait false dfuel W 1 true s with
     | inl r => (r, s)
     | inr s' => (POk, s')
     end
@@ -229,15 +244,16 @@ Fixpoint sel_loop (outer fuel : nat) (W : world) (n n_parents : nat) (behemoths 
             else (true, {| ss_started := ss_started s ++ [p]; ss_completed := ss_completed s;
                            ss_running := ss_running s ++ [(p, ss_clock s)]; ss_clock := ss_clock s |})
         end in
-      match sel_wait fuel W n (fst s1) (snd s1) with
+      match sel_wait true fuel W n (fst s1) (snd s1) with
       | inl r => (r, snd s1)
-      | inr s' => sel_loop o fuel W n n_parents behemoths smaller leafless s'
+      | inr s' => sel_loop o fuel dfuel W n n_parents behemoths smaller leafless s'
       end
   end.
 
 Definition run_selection_pool (W : world) (n : nat) (behemoths smaller leafless : list nat) : pres * sel_state :=
   let np := length behemoths + length smaller in
-  sel_loop (S (2 * np)) (pool_fuel W (S (list_max (behemoths ++ smaller)))) W n np behemoths smaller leafless
+  let f := pool_fuel W (S (list_max (behemoths ++ smaller))) in
+  sel_loop (S (2 * np)) f f W n np behemoths smaller leafless
            {| ss_started := []; ss_completed := []; ss_running := []; ss_clock := 0 |}.
 
 (* ---- the six parallel stages as sequences of phases.  A phase = effects done by the
@@ -383,6 +399,21 @@ Definition run_selection_sx (x : sx) : sx :=
           let r := run_selection_pool W n bs ss ls in
           sx_ok (L [of_pres (fst r); of_Lnat (ss_started (snd r)); of_Lnat (ss_completed (snd r))])
       | _, _, _, _, _, _ => sx_bad
+      end
+  | _ => sx_bad
+  end.
+
+(* input: (mode arg) with mode 0 = returns, 1 = raises, 2 = os._exit(arg), 3 = killed by signal arg
+   output: the exit code multiprocessing reports *)
+Definition run_exit_code_sx (x : sx) : sx :=
+  match x with
+  | L [m; a] =>
+      match sx_Z m, sx_Z a with
+      | Some 0%Z, Some _ => sx_ok (I (exit_code_of NoFail))
+      | Some 1%Z, Some _ => sx_ok (I (exit_code_of Raises))
+      | Some 2%Z, Some a => sx_ok (I (exit_code_of (Exits a)))
+      | Some 3%Z, Some a => if ((1 <=? a) && (a <=? 64))%Z then sx_ok (I (exit_code_of (Killed a))) else sx_bad
+      | _, _ => sx_bad
       end
   | _ => sx_bad
   end.
